@@ -295,7 +295,8 @@ def constructors(P):
     """all functions (and closures) that insert into a Component"""
     out = []
     for k, b in P.bodies.items():
-        if any(c.callee == INSERT for c in b.calls) and any(l['ty'] == COMPONENT_TY for l in b.locals):
+        if any(l['ty'] == COMPONENT_TY for l in b.locals) and \
+                (any(c.callee == INSERT for c in b.calls) or any(c.callee.startswith('indexmap::IndexMap::<K, V>::new') for c in b.calls)):
             out.append(k)
     return sorted(out)
 
